@@ -146,6 +146,41 @@ theorem rsync_join_beneath (u v : Rsync) (p : Bytes) (hu : u.Inv) (hj : u.join p
 theorem rsync_parent_isParentOf (u v : Rsync) (hu : u.Inv) (hp : u.parent = some v) :
     v.isParentOf u = true := Rsync.parent_isParentOf u v hu hp
 
+/-- **`path_into_dir`** yields a valid URI that re-parses to an equal value with the same authority; its path is a
+directory path; doing it twice changes nothing; and it only ever appends one slash. -/
+theorem https_pathIntoDir (u : Https) (hu : u.Inv) :
+    Https.fromBytes (u.pathIntoDir).uri = .ok u.pathIntoDir ∧ (u.pathIntoDir).pathIdx = u.pathIdx ∧
+    (u.pathIntoDir).pathIntoDir = u.pathIntoDir ∧
+    ((u.pathIntoDir).uri = u.uri ∨ (u.pathIntoDir).uri = u.uri ++ [slash]) := by
+  by_cases hd : u.pathIsDir = true
+  · have e : u.pathIntoDir = u := by unfold Https.pathIntoDir; simp [hd]
+    rw [e]
+    exact ⟨(Https.fromBytes_ok_iff _ _).2 ⟨rfl, hu⟩, rfl, e, Or.inl rfl⟩
+  · have hd' : u.pathIsDir = false := by simpa using hd
+    have e : u.pathIntoDir = { u with uri := u.uri ++ [slash] } := by unfold Https.pathIntoDir; simp [hd']
+    -- the same value as joining the empty path onto a non-directory path
+    unfold Https.pathIsDir at hd'
+    rw [Bool.or_eq_false_iff] at hd'
+    have hne : u.path ≠ [] := by intro h; rw [h] at hd'; simp at hd'
+    have hj : u.join [] = .ok { u with uri := u.uri ++ [slash] } := by
+      unfold Https.join
+      have hc : checkUriAscii ([] : Bytes) = true := rfl
+      simp only [hc, Bool.not_true, Bool.false_eq_true, if_false, hd'.2, Bool.not_false, if_true, List.append_nil,
+        Bool.and_true, ne_eq, hne, not_false_eq_true, decide_true, ite_self]
+    have hr := https_join_reparse u _ [] hu hj
+    rw [e]
+    refine ⟨hr.1, hr.2, ?_, Or.inr rfl⟩
+    -- a second application finds a path that ends in a slash
+    unfold Https.pathIntoDir Https.pathIsDir Https.path
+    have : endsWithSlash ((u.uri ++ [slash]).drop u.pathIdx) = true := by
+      have hle : u.pathIdx ≤ u.uri.length := by
+        have := hu.2.2; rw [this]; exact (findSlashFrom_le _ _ (Https.Inv.length_ge hu)).2
+      rw [List.drop_append_of_le_length hle]
+      unfold endsWithSlash
+      simp
+    simp [this]
+
+
 /-- The parent of an HTTPS URI is a valid URI that re-parses to the same value, with the same
 authority. -/
 theorem https_parent_reparse (u v : Https) (h : u.Inv) (hp : u.parent = some v) :
